@@ -165,6 +165,11 @@ func parent(a vc.Args, scs []scenario, iters int) {
 		}
 		rc.TraceID = id - 1
 		rc.Reset(rec.M{"family": "races", "id": id, "pair": s.Name, "iters": iters}, nil)
+		// the "returned slice is walked after the lock is released" class names ONE getter (GetProposedBlocks, a
+		// recorded finding); the same kind of race through any other getter is a different defect
+		if v.race && v.defect == sliceDefect && !strings.Contains(s.Name, "GetProposedBlocks") {
+			v.defect = "other: " + v.site + " in " + s.Name
+		}
 		pred := s.Pred
 		if pred == nil {
 			pred = []string{}
@@ -267,6 +272,8 @@ func summarise(rep string) string {
 	sort.Strings(sites)
 	return strings.Join(sites, " | ")
 }
+
+const sliceDefect = "a slice returned by a locked getter shares its backing array with the round (walked after the lock is released)"
 
 // defectOf groups the racing frames by the unsynchronised accessor involved (first match wins).
 func defectOf(site string) string {
@@ -380,7 +387,12 @@ func newEnv() *env {
 	p2, p3 := mkBlock("p2", 2), mkBlock("p3", 3)
 	r.AddProposedBlock(p2)
 	r.AddProposedBlock(p3)
+	// three notarized blocks: the slice then has spare capacity (len 3, cap 4), so the next AddNotarizedBlock
+	// appends and sorts IN PLACE and UpdateNotarizedBlock(dup of p3) assigns in place - writes that a reader
+	// of an un-copied GetNotarizedBlocks result would race with
 	r.AddNotarizedBlock(p2)
+	r.AddNotarizedBlock(p3)
+	r.AddNotarizedBlock(mkBlock("p4", 4))
 	r.ResetPhase(round.Verify) // AddNotarizedBlock moved the phase to Share: a restart is possible again
 	r.AddTimeoutVote(1, nodes[1].GetKey())
 	e.r = r
